@@ -150,6 +150,7 @@ HashSet(S) == IF S = {} THEN 0 ELSE LET o == CHOOSE x \in S : \A y \in S : Code(
 SetToSeq(S) == LET RECURSIVE f(_) f(T) == IF T = {} THEN <<>> ELSE LET o == CHOOSE x \in T : \A y \in T : Code(x) <= Code(y) IN <<o>> \o f(T \ {o}) IN f(S)
 SortedPts(S) == IF S = {} THEN <<>> ELSE CHOOSE s \in [1..Cardinality(S) -> S] : \A a, b \in 1..Cardinality(S) : a < b => s[a] < s[b]
 Case == [fixed |-> SortedPts(fixed), built |-> SortedPts(built), closure |-> SortedPts(Closure),
-         pts |-> [i \in Pt |-> U[i]], obs |-> SetToSeq(obs), hist |-> [i \in 1..Len(hist) |-> hist[i].k], extra |-> extra]
+         pts |-> [i \in Pt |-> U[i]], obs |-> SetToSeq(obs), hist |-> [i \in 1..Len(hist) |-> hist[i].k], extra |-> extra,
+         travpts |-> SortedPts(UNION {hist[i].p : i \in {j \in 1..Len(hist) : hist[j].k = "trav"}})]
 Emit == (built # {} /\ (HashSet(obs) + 13 * Cardinality(fixed) + Seed) % Keep = 0) => PrintT("CASE " \o ToJson(Case))
 =============================================================================
